@@ -35,7 +35,9 @@ RULE = (
 )
 ASSUMPTIONS = [
     "Excl: a single entry that both adds and removes the same flag",
-    "Excl: '-*' / '-foo_*' anywhere but first in an entry (an entry is a (neg,pos) pair: clear, then remove neg, then add pos)",
+    "Excl: '-*' / '-foo_*' anywhere but first in an API-level entry (an entry is a (neg,pos) pair: clear, then remove neg, "
+    "then add pos); package.use lines of the dom kind may carry a plain -* mid-line and are read token by token in order",
+    "Excl: a package.use line that adds a flag and removes it again (by name or by a group -*) after the line's last plain -*",
     "Excl: continuations after an operation raised (mutating a frozen dict; mutating an unfrozen dict after optimize() "
     "turned its per-key lists into tuples) are pruned and counted in outcome class op-raised:*, not judged",
     "Excl: PayloadDict subclass; render_to_dict / render_to_payload output shapes",
@@ -44,8 +46,8 @@ ASSUMPTIONS = [
     "the seen-set stores a 128-bit BLAKE2 digest of the exact state snapshot (memory), not the snapshot itself",
 ]
 BOUNDS = {
-    "quick": "bfs: core alphabet (24 events) to depth 4 plus full alphabet (70 events) to depth 3, partitioned by 2-event / 1-event root prefixes; dom: 4 make.defaults variants x every sequence of <=3 profile/user package.use lines out of 15",
-    "thorough": "bfs: core alphabet to depth 5 plus full alphabet to depth 4; dom: every sequence of <=4 lines",
+    "quick": "bfs: core alphabet (24 events) to depth 4 plus full alphabet (70 events) to depth 3, partitioned by 2-event / 1-event root prefixes; dom: 4 make.defaults variants x (every sequence of <=3 profile/user package.use lines out of 15 + every sequence of <=2 lines out of 20 containing a parser-shape line: plain flag, in-line -*, USE_EXPAND group)",
+    "thorough": "bfs: core alphabet to depth 5 plus full alphabet to depth 4; dom: every sequence of <=4 base lines + <=3 lines with a parser-shape line",
 }
 
 TIME_CAP = {"quick": 300, "thorough": 2400}
@@ -399,12 +401,32 @@ DOM_LINES = [
 ]
 
 
+# user package.use line shapes that exercise the line parser itself (a plain flag, then a plain in-line -*, then
+# optionally a USE_EXPAND group with or without its own -*); indices continue DOM_LINES. They are crossed with every
+# other line in sequences of <= 2 (quick) / <= 3 (thorough) lines rather than added to the depth-3/4 product.
+DOM_PARSER_LINES = [
+    ("pu", "*/* x -* y FOO: a"),
+    ("pu", "a/p x -* y FOO: -* b"),
+    ("pu", "=a/p-1 z x -* FOO: a"),
+    ("pu", "a/* foo_a x -* y FOO: b"),
+    ("pu", "*/* x -* y"),
+]
+N_BASE_LINES = len(DOM_LINES)
+DOM_LINES = DOM_LINES + DOM_PARSER_LINES
+
+
 def dom_configs(tier):
-    """[mk index, line indices...]: every make.defaults variant x every sequence of <= n lines (profile lines first,
-    at least one user line)."""
+    """[mk index, line indices...]: every make.defaults variant x every sequence of <= n base lines (profile lines first,
+    at least one user line), plus every sequence of <= n-1 lines containing at least one parser-shape line."""
     n = 3 if tier == "quick" else 4
-    idx = range(len(DOM_LINES))
+    idx = range(N_BASE_LINES)
     seqs = []
+    for r in range(1, n):
+        for combo in itertools.product(range(len(DOM_LINES)), repeat=r):
+            li = [0 if DOM_LINES[i][0] == "pp" else 1 for i in combo]
+            if li != sorted(li) or not any(i >= N_BASE_LINES for i in combo):
+                continue
+            seqs.append(list(combo))
     for r in range(1, n + 1):
         for combo in itertools.product(idx, repeat=r):
             li = [0 if DOM_LINES[i][0] == "pp" else 1 for i in combo]
@@ -415,7 +437,7 @@ def dom_configs(tier):
 
 
 def _parse_use_line(text):
-    """Reference parse of a package.use line of the generated shapes -> (key, neg, pos)."""
+    """Chunk view of a package.use line (key, neg, pos); only used by the classifiers to describe a case's shape."""
     toks = text.split()
     key = toks[0]
     key = "*" if key == "*/*" else key
@@ -439,6 +461,25 @@ def _parse_use_line(text):
     return key, tuple(neg), tuple(pos)
 
 
+def _line_tokens(text):
+    """Reference reading of one package.use line: its tokens applied one by one in the order written
+    -> [(key, neg, pos)] with exactly one flag each.  Inside a 'FOO:' group a value v is foo_v and -* is -foo_*."""
+    toks = text.split()
+    key = "*" if toks[0] == "*/*" else toks[0]
+    out = []
+    expand = None
+    for t in toks[1:]:
+        if t.endswith(":"):
+            expand = t[:-1].lower()
+            continue
+        neg = t.startswith("-")
+        f = t[1:] if neg else t
+        if expand is not None:
+            f = f"{expand}_{f}"
+        out.append((key, (f,), ()) if neg else (key, (), (f,)))
+    return out
+
+
 def dom_logical(cfg):
     use, foo = DOM_MK[cfg[0]]
     logical = []
@@ -449,7 +490,7 @@ def dom_logical(cfg):
     for layer in ("pp", "pu"):
         for i in cfg[1:]:
             if DOM_LINES[i][0] == layer:
-                logical.append(_parse_use_line(DOM_LINES[i][1]))
+                logical.extend(_line_tokens(DOM_LINES[i][1]))
     return logical
 
 
